@@ -442,21 +442,15 @@ Fixpoint trace (c : cfg) (o : oracle) (sched : list tid) (s : state) : list (lis
 (* ------------------------------------------------------------------------------------------
    Correspondence cases.  The harness sends a TREE OF SCHEDULES (numeral-free constructors: Coq
    8.16 elaborates a numeral in ~0.1 ms, a constant in ~0.02 ms, and a case has 10^3-10^5 nodes)
-   and ONE number: a polynomial digest (multiplier 6364136223846793005, arithmetic modulo 2^63 on
-   primitive integers) of the observations it recorded on the real class at every node, in
-   pre-order.  Coq recomputes the digest from the model's observations and compares.  Every
-   observed field must be < 64 (checked on both sides).  Two runs that differ in one field have
-   different digests (the multiplier is odd); differences in several fields cancel only by
-   accident (~2^-63).  Primitive integers are used here only - no theorem depends on them. *)
+   and ONE number: a digest of the observations it recorded on the real class at every node, in
+   pre-order.  Coq recomputes the digest from the model's observations and compares.  The
+   traversal is defined here, generic in the accumulator; the harness instantiates it in the
+   generated case files with a polynomial hash on primitive 63-bit integers (multiplier
+   6364136223846793005, arithmetic modulo 2^63: two runs that differ in one field have different
+   digests, differences in several fields cancel only by accident, ~2^-63), so that no file of
+   this development depends on the primitive-integer library.  Every observed field must be
+   < 64 (checked on both sides, fail closed). *)
 Definition obs_small (l : list N) : bool := forallb (fun x => N.ltb x 64) l.
-
-From Coq Require Import Uint63.
-
-Definition n2i (x : N) : int := match x with N0 => 0%uint63 | Npos p => of_pos p end.
-
-Definition mix (acc : int) (l : list N) : int :=
-  fold_left (fun a x => (a * 6364136223846793005 + n2i x + 1)%uint63) l
-            (acc * 6364136223846793005 + 77)%uint63.
 
 Inductive tidc := c0 | c1 | c2 | c3 | s0 | s1 | s2 | s3 | s4 | s5 | cN (i : nat) | sN (h : nat).
 
@@ -470,30 +464,27 @@ Definition tid_of (t : tidc) : tid :=
 Inductive trie := Nd (kids : kidlist)
 with kidlist := KNil | KK (t : tidc) (k : trie) (r : kidlist).
 
+Section Digest.
+Variable A : Type.
+Variable mixf : A -> list N -> A.      (* fold one observation into the accumulator *)
+
 (* pre-order digest; None = some observed field does not fit the packing (fail closed) *)
-Fixpoint digest_trie (c : cfg) (o : oracle) (s : state) (t : trie) (acc : option int) : option int :=
+Fixpoint digest_trie (c : cfg) (o : oracle) (s : state) (t : trie) (acc : option A) : option A :=
   match t with
   | Nd kids =>
       let l := observe c o s in
       match acc with
-      | Some a => if obs_small l then digest_kids c o s kids (Some (mix a l)) else None
+      | Some a => if obs_small l then digest_kids c o s kids (Some (mixf a l)) else None
       | None => None
       end
   end
-with digest_kids (c : cfg) (o : oracle) (s : state) (ks : kidlist) (acc : option int) : option int :=
+with digest_kids (c : cfg) (o : oracle) (s : state) (ks : kidlist) (acc : option A) : option A :=
   match ks with
   | KNil => acc
   | KK t k r => digest_kids c o s r (digest_trie c o (step_or_stay c o s (tid_of t)) k acc)
   end.
 
-(* a correspondence case: configuration, oracle, scripts, schedule tree, digest of the real run *)
-Definition check_case (x : cfg * oracle * list (list op) * trie * int) : bool :=
-  let '(c, o, scripts, t, d) := x in
-  match digest_trie c o (init scripts) t (Some 0%uint63) with
-  | Some d' => Uint63.eqb d' d
-  | None => false
-  end.
-
-Definition case_digest (x : cfg * oracle * list (list op) * trie) : option int :=
-  let '(c, o, scripts, t) := x in digest_trie c o (init scripts) t (Some 0%uint63).
-
+(* a correspondence case: configuration, oracle, scripts, schedule tree *)
+Definition case_digest (a0 : A) (x : cfg * oracle * list (list op) * trie) : option A :=
+  let '(c, o, scripts, t) := x in digest_trie c o (init scripts) t (Some a0).
+End Digest.
